@@ -37,6 +37,16 @@ GEN_PATH = os.path.join(fw.COQ, "Gen", "C02_status.v")
 
 BASE_URL = "http://example.com/app/dir/page"
 NOBODY = ("204", "205", "304")
+WELL_FORMED_STATUS = re.compile(r"^[0-9]{3}(?: |$)")
+
+
+def nobody_status(st):
+    """True/False for a well-formed status line ("NNN reason"): does its code forbid a body; None for a
+    malformed one (leading space, tab, non-ASCII digits, four digits ...): outside the statement."""
+    if not WELL_FORMED_STATUS.match(st):
+        return None
+    code = int(st[:3])
+    return 100 <= code < 200 or code in (204, 205, 304)
 
 
 def environ(method):
@@ -51,31 +61,56 @@ def environ(method):
 
 # =========================================================================== classes under test
 _CLS = {}
-# name -> (default_content_type, default_charset, default_conditional_response)
+# name -> (default_content_type, default_charset, default_conditional_response, default_body_encoding)
 CLS_CFG = {
-    "base": ("text/html", "UTF-8", False),
-    "json": ("application/json", "UTF-8", False),
-    "latin": ("text/plain", "latin-1", False),
-    "nodef": (None, None, False),
-    "cond": ("text/html", "UTF-8", True),
-    "xml": ("application/atom+xml", "utf-8", True),
+    "base": ("text/html", "UTF-8", False, "UTF-8"),
+    "json": ("application/json", "UTF-8", False, "UTF-8"),
+    "latin": ("text/plain", "latin-1", False, "UTF-8"),
+    "nodef": (None, None, False, "UTF-8"),
+    "cond": ("text/html", "UTF-8", True, "UTF-8"),
+    "xml": ("application/atom+xml", "utf-8", True, "UTF-8"),
+    "benc": ("application/octet-stream", None, False, "latin-1"),
+    "noenc": ("image/png", None, True, None),
 }
+# classes only the oracle drives (the model decodes strictly): name -> (base configuration, extra class attributes)
+ORACLE_CLS = {
+    "lenient": ("base", {"unicode_errors": "replace"}),
+    "ignore": ("benc", {"unicode_errors": "ignore", "default_body_encoding": "ascii"}),
+}
+ALL_CLS = sorted(CLS_CFG) + sorted(ORACLE_CLS)
 
 
 def classes():
     if not _CLS:
         from webob import Response
         _CLS["base"] = Response
-        for name, (ct, cs, cond) in CLS_CFG.items():
+        for name, (ct, cs, cond, benc) in CLS_CFG.items():
             if name == "base":
                 continue
             _CLS[name] = type("Resp_" + name, (Response,), {
-                "default_content_type": ct, "default_charset": cs, "default_conditional_response": cond})
+                "default_content_type": ct, "default_charset": cs, "default_conditional_response": cond,
+                "default_body_encoding": benc})
+        for name, (base, extra) in ORACLE_CLS.items():
+            _CLS[name] = type("Resp_" + name, (_CLS[base],), dict(extra))
         # the configuration the model is run with must be what the class really has
-        for name, (ct, cs, cond) in CLS_CFG.items():
+        for name, (ct, cs, cond, benc) in CLS_CFG.items():
             k = _CLS[name]
-            assert (k.default_content_type, k.default_charset, k.default_conditional_response) == (ct, cs, cond), name
+            assert (k.default_content_type, k.default_charset, k.default_conditional_response, k.default_body_encoding,
+                    k.unicode_errors) == (ct, cs, cond, benc, "strict"), name
     return _CLS
+
+
+class _Reiterable:
+    """an app_iter object that is neither list nor tuple: iterable again and again, with a close() method"""
+
+    def __init__(self, chunks):
+        self.chunks, self.closed = list(chunks), 0
+
+    def __iter__(self):
+        return iter(list(self.chunks))
+
+    def close(self):
+        self.closed += 1
 
 
 class _BlockFile:
@@ -98,7 +133,14 @@ def mk_app(kind, chunks):
         return iter(list(chunks))
     if kind == "gen":
         return (c for c in chunks)
+    if kind == "obj":
+        return _Reiterable(chunks)
     raise ValueError(kind)
+
+
+def py_status(s):
+    """JSON form of a status argument -> the Python value ({"bytes": text} is a bytes status line)."""
+    return s["bytes"].encode("latin-1") if isinstance(s, dict) else s
 
 
 # =========================================================================== driving the real object
@@ -111,9 +153,9 @@ def build(case):
     if "text" in c:
         kw["body"] = c["text"]
     if "json" in c:
-        kw["json_body"] = c["json"]
+        kw["json" if c.get("json_alias") else "json_body"] = c["json"]
     if "status" in c:
-        kw["status"] = c["status"]
+        kw["status"] = py_status(c["status"])
     if "headerlist" in c:
         kw["headerlist"] = [tuple(h) for h in c["headerlist"]]
     if "app_iter" in c:
@@ -221,7 +263,27 @@ def apply_op(r, op):
             r.content_type = op[1]
             res = None
         elif t == "set_status":
-            r.status = op[1]
+            r.status = py_status(op[1])
+            res = None
+        elif t == "set_cond":
+            r.conditional_response = op[1]
+            res = None
+        elif t == "set_attr":            # instance-level override of a class knob, after construction
+            setattr(r, op[1], op[2])
+            res = None
+        elif t == "md5_etag_of":
+            r.md5_etag(bytes.fromhex(op[1]), set_content_md5=op[2])
+            res = None
+        elif t == "reassign_app_iter":   # the very object already held
+            r.app_iter = r.app_iter
+            res = None
+        elif t == "bad":                 # argument of a type the setter documents as refused
+            {"body_str": lambda: setattr(r, "body", "text"),
+             "body_bytearray": lambda: setattr(r, "body", bytearray(b"ab")),
+             "body_none": lambda: setattr(r, "body", None),
+             "text_bytes": lambda: setattr(r, "text", b"ab"),
+             "write_int": lambda: r.write(5),
+             "status_none": lambda: setattr(r, "status", None)}[op[1]]()
             res = None
         elif t == "set_location":
             r.location = op[1]
@@ -326,10 +388,13 @@ def ref_step(ref, r, op, res, pre):
         ref.segs, ref.kind, ref.raw = [("raw", b)], "list", False
         return None
     if t == "set_text":
-        enc = pre["charset"] or "UTF-8"
+        enc = pre["charset"] or pre["benc"]
+        if not enc:
+            return None if raised and res.name == "AttributeError" else \
+                ("set_text:no-encoding", "%r without charset or default_body_encoding gave %r" % (op, res))
         try:
             b = op[1].encode(enc)
-        except (LookupError, UnicodeEncodeError):
+        except (LookupError, UnicodeError):
             return None if raised else ("set_text:unencodable-accepted", "%r accepted under charset %r" % (op, enc))
         if raised:
             return unexpected()
@@ -342,7 +407,7 @@ def ref_step(ref, r, op, res, pre):
                     ("write:text-without-charset", "%r without a charset gave %r" % (op, res))
             try:
                 b = op[1].encode(pre["charset"])
-            except (LookupError, UnicodeEncodeError):
+            except (LookupError, UnicodeError):
                 return None if raised else ("write:unencodable-accepted", "%r accepted" % (op,))
         elif t in ("write", "fwrite"):
             b = bytes.fromhex(op[1])
@@ -425,14 +490,33 @@ def ref_step(ref, r, op, res, pre):
         if raised:
             return unexpected()
         ref.kind = "list"
-        return None
+        conc = seg_concrete(ref.segs)
+        return check_digest(r, conc, op[1]) if conc is not None else None
     if t == "copy":
         if raised:
             return unexpected()
         ref.kind = "list"
         return None
-    if t in ("set_charset", "del_charset", "set_content_type", "set_status", "set_location"):
+    if t in ("set_charset", "del_charset", "set_content_type", "set_status", "set_location", "set_cond", "set_attr"):
+        if t == "set_location" and op[1] and ("\r" in op[1] or "\n" in op[1]) and not raised:
+            return ("set_location:control-characters-accepted", "%r accepted" % (op,))
         return None                      # may legitimately refuse (ValueError/KeyError/AttributeError); body untouched
+    if t == "reassign_app_iter":
+        if raised:
+            return unexpected()
+        ref.raw = False
+        return None
+    if t == "bad":
+        ok = ("TypeError", "AttributeError") if op[1] == "text_bytes" and not (pre["charset"] or pre["benc"]) else ("TypeError",)
+        if not (raised and res.name in ok):
+            return ("refusal:" + op[1], "%r gave %r instead of TypeError" % (op, res))
+        if r.status != pre["status"] or [tuple(h) for h in r.headerlist] != pre["headerlist"]:
+            return ("refusal:state-changed", "%r was refused but changed status/headers to %r %r" % (op, r.status, r.headerlist))
+        return None
+    if t == "md5_etag_of":
+        if raised:
+            return unexpected()
+        return check_digest(r, bytes.fromhex(op[1]), op[2])
     if t == "get_body":
         if raised:
             return unexpected()
@@ -443,11 +527,14 @@ def ref_step(ref, r, op, res, pre):
         return None
     if t == "get_text":
         conc = seg_concrete(ref.segs)
-        enc = pre["charset"] or "UTF-8"
+        enc = pre["charset"] or pre["benc"]
+        if not enc:
+            return None if raised and res.name == "AttributeError" else \
+                ("get_text:no-encoding", ".text without charset or default_body_encoding gave %r" % (res,))
         if conc is not None:
             try:
-                want = conc.decode(enc)
-            except (LookupError, UnicodeDecodeError):
+                want = conc.decode(enc, pre["uerr"])
+            except (LookupError, UnicodeError):
                 want = None
             if want is None:
                 if not raised:
@@ -462,13 +549,24 @@ def ref_step(ref, r, op, res, pre):
         m = check_call(ref, pre, op[1], res[0], res[1], BASE_URL)
         if m:
             return m
-        if op[1] == "GET":
+        if op[1] != "HEAD":
             if ref.kind in ("iter", "gen"):
                 ref.segs = [("raw", b"")]
         elif ref.kind == "gen":
             ref.segs = [("raw", b"")]     # a WSGI server closes what it was given; a closed generator is empty
         return None
     raise ValueError(op)
+
+
+def check_digest(r, body, with_md5):
+    """ETag (and Content-MD5) after md5_etag are the MD5 of `body`, computed here with hashlib."""
+    d = base64.b64encode(hashlib.md5(body).digest()).decode("ascii")
+    et = [v for k, v in r.headerlist if k.lower() == "etag"]
+    if et != ['"%s"' % d.strip("=")]:
+        return ("md5_etag:etag", "ETag headers %r, MD5 of the body gives %r" % (et, d.strip("=")))
+    if with_md5 and [v for k, v in r.headerlist if k.lower() == "content-md5"] != [d]:
+        return ("md5_etag:content-md5", "Content-MD5 is not %r: %r" % (d, r.headerlist))
+    return None
 
 
 def check_call(ref, pre, method, calls, chunks, base):
@@ -511,7 +609,8 @@ def pre_state(r):
             break
     cs = fw.catch(lambda: r.charset)
     return {"status": r.status, "headerlist": [tuple(h) for h in r.headerlist],
-            "charset": None if isinstance(cs, Err) else cs, "content_encoding": ce}
+            "charset": None if isinstance(cs, Err) else cs, "content_encoding": ce,
+            "benc": r.default_body_encoding, "uerr": r.unicode_errors}
 
 
 def run_prefix(case, n):
@@ -524,9 +623,11 @@ def run_prefix(case, n):
     if "app_iter" in c:
         ref = Ref([("raw", b"".join(bytes.fromhex(x) for x in c["app_iter"][1]))], c["app_iter"][0])
     else:
-        st = r.status
-        nobody = st[:1] == "1" or st[:3] in NOBODY
-        if nobody:
+        nobody = nobody_status(r.status)
+        if nobody is None:
+            # malformed status line: whether it carries the body is outside the statement; take what was created
+            b = b"".join(r.app_iter)
+        elif nobody:
             b = b""
         elif "body" in c:
             b = bytes.fromhex(c["body"])
@@ -546,7 +647,7 @@ def run_prefix(case, n):
     if c.get("content_length") is not None:
         ref.raw = True
     if any(k.lower() == "content-length" for k, _ in c.get("headerlist", [])) and \
-            ("app_iter" in c or r.status[:1] == "1" or r.status[:3] in NOBODY):
+            ("app_iter" in c or nobody_status(r.status) is not False):
         ref.raw = True       # kept as given by the constructor: the caller's own
     others = []
     for i, op in enumerate(case["ops"][:n]):
@@ -597,10 +698,10 @@ def finish(r, ref, how):
         conc = seg_concrete(ref.segs)
         cs = fw.catch(lambda: r.charset)
         if conc is not None and not isinstance(cs, Err):
-            enc = cs or "UTF-8"
+            enc = cs or r.default_body_encoding
             try:
-                want = conc.decode(enc)
-            except (LookupError, UnicodeDecodeError):
+                want = conc.decode(enc, r.unicode_errors) if enc else None
+            except (LookupError, UnicodeError):
                 want = None
             got = fw.catch(lambda: r.text)
             if want is None:
@@ -609,7 +710,11 @@ def finish(r, ref, how):
             elif got != want:
                 return ("readback:text", ".text gave %r, body %r decodes (%s) to %r" % (got, conc, enc, want))
         pre = pre_state(r)
-        req = Request.blank("/")
+        # a second and a third request environ (scheme, port, script name differ from the strict harness's)
+        if len(r.headerlist) % 2:
+            req, base = Request.blank("/"), "http://localhost/"
+        else:
+            req, base = Request.blank("/a/b?x=1", base_url="https://example.org:8443/s"), "https://example.org:8443/s/a/b"
         status, headers, app_iter = req.call_application(r)
         try:
             chunks = list(app_iter)
@@ -617,7 +722,7 @@ def finish(r, ref, how):
             if hasattr(app_iter, "close"):
                 app_iter.close()
         ref2 = Ref(ref.segs, "list", ref.raw)
-        return check_call(ref2, pre, "GET", [(status, headers)], chunks, "http://localhost/")
+        return check_call(ref2, pre, "GET", [(status, headers)], chunks, base)
     except AssertionError as e:
         if ref.raw:
             return None      # webob refuses to join a body whose hand-written Content-Length is wrong: allowed
@@ -650,12 +755,16 @@ def oracle_ctor(case):
     r = build(case)
     c = case["ctor"]
     if isinstance(r, Err):
-        if r.name in ("TypeError", "LookupError", "UnicodeEncodeError", "ValueError", "KeyError") and \
-                ("text" in c or isinstance(c.get("status"), str) or isinstance(c.get("status"), int)):
+        if "body" in c and "app_iter" in c:
+            return None if r.name == "TypeError" else ("ctor:body-and-app_iter", "raised %s, not TypeError" % r.name, case)
+        if r.name in ("TypeError", "LookupError", "UnicodeEncodeError", "UnicodeDecodeError", "UnicodeError", "ValueError",
+                      "KeyError") and ("text" in c or "status" in c):
             return None      # a text body that cannot be encoded / an unusable status: refused, nothing created
         return ("ctor:raises", "constructor raised %s" % r.name, case)
+    if "body" in c and "app_iter" in c:
+        return ("ctor:body-and-app_iter", "both body and app_iter were accepted", case)
     st = r.status
-    nobody = st[:1] == "1" or st[:3] in NOBODY
+    nobody = nobody_status(st)
     if nobody:
         hl = [tuple(h) for h in r.headerlist]
         given = [tuple(h) for h in c.get("headerlist", [])]
@@ -759,9 +868,15 @@ def impl_run(case):
             fake = "".join("%d." % ord(ch) for ch in canon_bytes(body)) + "=="
             md5map[real] = fake
             md5map['"%s"' % real.strip("=")] = '"%s"' % fake.strip("=")
+        elif t == "md5_etag_of":
+            body = bytes.fromhex(op[1])
+            real = base64.b64encode(hashlib.md5(body).digest()).decode("ascii")
+            fake = "".join("%d." % ord(ch) for ch in canon_bytes(body)) + "=="
+            md5map[real] = fake
+            md5map['"%s"' % real.strip("=")] = '"%s"' % fake.strip("=")
         elif t == "call":
             calls, chunks = res
-            judge = before if before is not None else (chunks if op[1] == "GET" else None)
+            judge = before if before is not None else (chunks if op[1] != "HEAD" else None)
             res = [[[s, canon_headers(hl, judge, md5map)] for s, hl in calls], canon_chunks(chunks)]
         steps.append([res, snapshot(r, md5map)])
     rest = list(r.app_iter)
@@ -772,12 +887,14 @@ def c_app(kind, chunks):
     cs = clist(cstr(bytes.fromhex(x)) for x in chunks)
     if kind == "list":
         return "(AList %s)" % cs
-    if kind == "tuple":
+    if kind in ("tuple", "obj"):
         return "(ATuple %s)" % cs
     return "(AIter %s %s)" % (cbool(kind != "iter"), cs)
 
 
 def c_status(s):
+    if isinstance(s, dict):
+        return "(SStr %s)" % cstr(s["bytes"])      # bytes are decoded as ASCII and take the str path
     return "(SInt %s)" % cZ(s) if isinstance(s, int) else "(SStr %s)" % cstr(s)
 
 
@@ -823,6 +940,10 @@ def c_op(op):
         return "(OSetStatus %s)" % c_status(op[1])
     if t == "set_location":
         return "(OSetLocation %s)" % copt(None if op[1] is None else cstr(op[1]))
+    if t == "set_cond":
+        return "(OSetCond %s)" % cbool(op[1])
+    if t == "md5_etag_of":
+        return "(OMd5EtagOf %s %s)" % (cstr(bytes.fromhex(op[1])), cbool(op[2]))
     if t == "set_content_length":
         return "(OSetContentLength %s)" % copt(None if op[1] is None else fw.cN(op[1]))
     if t == "call":
@@ -831,8 +952,9 @@ def c_op(op):
 
 
 def c_case(case):
-    ct, cs, cond = CLS_CFG[case["cls"]]
-    cfg = "(mkCfg %s %s %s)" % (copt(None if ct is None else cstr(ct)), copt(None if cs is None else cstr(cs)), cbool(cond))
+    ct, cs, cond, benc = CLS_CFG[case["cls"]]
+    cfg = "(mkCfg %s %s %s %s)" % (copt(None if ct is None else cstr(ct)), copt(None if cs is None else cstr(cs)), cbool(cond),
+                                  copt(None if benc is None else cstr(benc)))
     c = case["ctor"]
     body = "None"
     if "body" in c:
@@ -863,7 +985,8 @@ def model_case(rng, maxlen):
         if o[0] == "file_write":
             ops += [["fwrite", x] for x in o[1]]
         elif o[0] == "set_location":
-            ops.append([o[0], rng.choice(["/abs/path", "rel", "http://other.example/x", "HTTPS://h/", None, "mailto:a@b", "/"])])
+            ops.append([o[0], rng.choice(["/abs/path", "rel", "http://other.example/x", "HTTPS://h/", None, "mailto:a@b", "/",
+                                          "a\r\nX-Injected: 1", "/x\ny"])])
         elif o[0] == "set_content_length" and any(p[0] == "encode" and p[1] == "gzip" for p in ops):
             # once a gzip stream may be in the body, a hand-written length must not be able to coincide with the
             # length of the real stream or of the model's symbolic one (they differ): only 0 / large / None
@@ -886,8 +1009,18 @@ CHARSETS = ["UTF-8", "utf-8", "utf8", "latin-1", "iso-8859-1", "ascii", "x-nope"
 CTYPES = ["text/html", "text/plain", "application/json", "application/xml", "image/svg+xml",
           "application/atom+xml", "text/plain; charset=latin-1", "image/png", "text/xml;charset=ascii", None, ""]
 STATUSES = [200, 204, 404, 304, 100, 599, 600, 299, 205, 99, "200 OK", "204 No Content", "404 Not Found",
-            "299 Custom", "304", "abc", "101 Switching", "205 Reset Content", " 200 spaced"]
-LOCATIONS = ["/abs/path", "rel", "http://other.example/x", "HTTPS://h/", "../up", "?q=1", None, "mailto:a@b"]
+            "299 Custom", "304", "abc", "101 Switching", "205 Reset Content", " 200 spaced",
+            # unusual reason phrases, bytes status lines, malformed lines (tab, leading space, four digits)
+            "200 Fine By Me", "204 Custom Reason", "304 x", "199 Odd", "205", "20 4", {"bytes": "200 OK"},
+            {"bytes": "204 Nothing"}, {"bytes": "304"}, "204\tTabbed", " 204 lead", "1000 Big", "2040 Long"]
+# outside the model's domain (int() accepts them, the model's digit reader does not): oracle only
+STATUSES_X = ["\uff12\uff10\uff14 wide digits", "+204 signed", "2_04 underscore", "204\xa0nbsp", {"bytes": "204\xff"}]
+LOCATIONS = ["/abs/path", "rel", "http://other.example/x", "HTTPS://h/", "../up", "?q=1", None, "mailto:a@b",
+             "a\r\nX-Injected: 1", "/x\ny"]
+CHARSETS_X = ["utf-16", "cp1252", "shift_jis", "utf-8-sig", '"utf-8"', " latin-1", "UTF_8", "idna"]
+CTYPES_X = ["text/plain; char\u017fet=latin-1", "text/plain; x=\u20ac", "TEXT/HTML", "text/plain;charset=utf-8;charset=latin-1",
+            "text/plain; charset=", "application/x; CHARSET=ascii"]
+KINDS = ["list", "iter", "gen", "tuple", "obj"]
 JSONS = [None, 0, "x", {"a": 1}, [1, "\xe9"], {}]
 
 
@@ -906,7 +1039,23 @@ def rand_chunks(rng, nonempty=False):
 
 
 def rand_op(rng, model_only=False):
-    kinds = ["list", "iter", "gen", "tuple"]
+    kinds = KINDS
+    if rng.random() < 0.12:
+        # configuration after construction, alternative argument shapes, refused argument types
+        t = rng.choice(["set_cond", "md5_etag_of", "md5_etag_of"] +
+                       ([] if model_only else ["set_attr", "set_attr", "reassign_app_iter", "bad", "bad"]))
+        if t == "set_cond":
+            return [t, rng.random() < 0.5]
+        if t == "md5_etag_of":
+            return [t, rand_bytes(rng), rng.random() < 0.5]
+        if t == "set_attr":
+            return [t] + rng.choice([["unicode_errors", "replace"], ["unicode_errors", "ignore"], ["unicode_errors", "strict"],
+                                     ["default_body_encoding", "latin-1"], ["default_body_encoding", None],
+                                     ["default_body_encoding", "UTF-8"], ["default_charset", None],
+                                     ["default_charset", "latin-1"], ["default_content_type", "text/plain"]])
+        if t == "bad":
+            return [t, rng.choice(["body_str", "body_bytearray", "body_none", "text_bytes", "write_int", "status_none"])]
+        return [t]
     t = rng.choice(["set_content_length", "set_content_length", "set_body", "set_body", "del_body", "set_text", "set_text", "set_json", "get_body", "get_body",
                     "get_text", "write", "write", "write", "write_text", "file_write", "set_app_iter", "set_app_iter",
                     "set_app_iter", "set_body_file", "del_app_iter", "encode", "encode", "encode", "decode", "decode",
@@ -931,23 +1080,23 @@ def rand_op(rng, model_only=False):
     if t == "copy":
         return [t, rng.random() < 0.6]
     if t == "set_charset":
-        return [t, rng.choice(CHARSETS + [None])]
+        return [t, rng.choice(CHARSETS + [None] + ([] if model_only else CHARSETS_X))]
     if t == "set_content_type":
-        return [t, rng.choice(CTYPES)]
+        return [t, rng.choice(CTYPES + ([] if model_only else CTYPES_X))]
     if t == "set_status":
-        return [t, rng.choice(STATUSES)]
+        return [t, rng.choice(STATUSES + ([] if model_only else STATUSES_X))]
     if t == "set_location":
         return [t, rng.choice(LOCATIONS)]
     if t == "set_content_length":
-        return [t, rng.choice([0, 1, 3, 5, 7, 1000, None])]
+        return [t, rng.choice([0, 1, 3, 5, 7, 1000, None] + ([] if model_only else [-1, 10 ** 20]))]
     if t == "call":
-        return [t, rng.choice(["GET", "HEAD"])]
+        return [t, rng.choice(["GET", "GET", "HEAD", "HEAD", "POST", "OPTIONS"])]
     return [t]
 
 
 def rand_ctor(rng, model_only=False):
     c = {}
-    kinds = ["list", "iter", "gen", "tuple"]
+    kinds = KINDS
     x = rng.random()
     if x < 0.3:
         c["body"] = rand_bytes(rng)
@@ -957,8 +1106,12 @@ def rand_ctor(rng, model_only=False):
         c["app_iter"] = [rng.choice(kinds), rand_chunks(rng)]
     elif x < 0.75 and not model_only:
         c["json"] = rng.choice(JSONS)
+        if rng.random() < 0.5:
+            c["json_alias"] = True                       # json= instead of json_body=
+    elif x < 0.77 and not model_only:
+        c["body"], c["app_iter"] = rand_bytes(rng), ["list", []]     # both: refused with TypeError
     if rng.random() < 0.35:
-        c["status"] = rng.choice(STATUSES)
+        c["status"] = rng.choice(STATUSES + ([] if model_only else STATUSES_X))
     if rng.random() < 0.25:
         hl = []
         for _ in range(rng.randrange(0, 3)):
@@ -968,12 +1121,13 @@ def rand_ctor(rng, model_only=False):
         # a Content-Length in the caller's own header list: replaced by the constructor when it builds the body
         # itself, otherwise a hand-written one (the reference treats it like r.content_length = n)
         if rng.random() < 0.5:
-            hl.append([rng.choice(["Content-Length", "content-length"]), rng.choice(["7", "0", "12"])])
+            hl.append([rng.choice(["Content-Length", "content-length", "CONTENT-LENGTH"]),
+                       rng.choice(["7", "0", "12"] + ([] if model_only else ["-5", " 7 ", "+3", "1_0"]))])
         c["headerlist"] = hl
     if rng.random() < 0.3:
-        c["content_type"] = rng.choice(CTYPES)
+        c["content_type"] = rng.choice(CTYPES + ([] if model_only else CTYPES_X))
     if rng.random() < 0.3:
-        c["charset"] = rng.choice(CHARSETS[:6] + [None])
+        c["charset"] = rng.choice(CHARSETS[:6] + [None] + ([] if model_only else CHARSETS_X[:4]))
     if rng.random() < 0.15:
         c["cond"] = rng.random() < 0.5
     if rng.random() < 0.2:
@@ -982,7 +1136,7 @@ def rand_ctor(rng, model_only=False):
 
 
 def rand_case(rng, maxlen, model_only=False):
-    return {"cls": rng.choice(sorted(CLS_CFG)), "ctor": rand_ctor(rng, model_only),
+    return {"cls": rng.choice(sorted(CLS_CFG) if model_only else ALL_CLS), "ctor": rand_ctor(rng, model_only),
             "ops": [rand_op(rng, model_only) for _ in range(rng.randrange(1, maxlen + 1))]}
 
 
@@ -1009,7 +1163,7 @@ def gen(ctx):
 
 
 # =========================================================================== the check
-MUTATING = {"set_content_length", "set_body", "del_body", "set_text", "set_json", "write", "fwrite", "write_text", "file_write",
+MUTATING = {"md5_etag_of", "reassign_app_iter", "set_content_length", "set_body", "del_body", "set_text", "set_json", "write", "fwrite", "write_text", "file_write",
             "set_app_iter", "set_body_file", "del_app_iter", "encode", "decode", "copy", "call", "md5_etag"}
 FN = "(fun x => run_fake (fst (fst x)) (snd (fst x)) (snd x))"
 IN_TYPE = "(cfg * cargs * list op)"
@@ -1026,12 +1180,14 @@ def small_universe():
         ["set_charset", "latin-1"], ["set_charset", None], ["set_content_type", "application/json"],
         ["set_status", 204], ["set_location", "/x"], ["call", "GET"], ["call", "HEAD"],
         ["set_content_length", 3], ["set_content_length", None],
+        ["set_cond", True], ["md5_etag_of", "6162", True], ["md5_etag_of", "", False], ["call", "POST"], ["call", "OPTIONS"],
+        ["set_app_iter", "obj", ["61", "62"]],
     ]
 
 
-def ctor_sweep():
-    for cls in sorted(CLS_CFG):
-        for status in [None] + STATUSES:
+def ctor_sweep(class_names):
+    for cls in class_names:
+        for status in [None] + STATUSES + STATUSES_X:
             for body in (None, ("body", "616263"), ("text", "\xe9"), ("json", {"k": [1]}), ("app_iter", ["gen", ["61", "62"]])):
                 for ct in (None, "text/plain", "image/png", "application/xml"):
                     for chs in ("marker", None, "latin-1"):
@@ -1078,13 +1234,31 @@ CORPUS = [
 ]
 
 
+# histories with steps outside the model (instance-level configuration, refused argument types): oracle only
+ORACLE_CORPUS = [
+    {"cls": "base", "ctor": {"content_type": "application/x"},
+     "ops": [["set_attr", "default_body_encoding", "latin-1"], ["set_text", "\xe9"], ["get_text"], ["get_body"], ["copy", True], ["get_text"]]},
+    {"cls": "base", "ctor": {"body": "fffe"},
+     "ops": [["set_attr", "unicode_errors", "replace"], ["get_text"], ["set_attr", "unicode_errors", "ignore"], ["get_text"]]},
+    {"cls": "lenient", "ctor": {"app_iter": ["obj", ["ff", "61"]]}, "ops": [["get_text"], ["call", "OPTIONS"], ["reassign_app_iter"], ["call", "HEAD"]]},
+    {"cls": "noenc", "ctor": {}, "ops": [["set_text", "x"], ["get_text"], ["bad", "text_bytes"], ["set_charset", "utf-16"], ["set_content_type", "text/plain"],
+                                         ["set_charset", "utf-16"], ["set_text", "\u20ac"], ["get_text"], ["write_text", "x"], ["get_text"]]},
+    {"cls": "base", "ctor": {"status": {"bytes": "204 Nothing"}, "body": "6162"},
+     "ops": [["bad", "body_str"], ["bad", "write_int"], ["set_status", "\uff12\uff10\uff10 wide"], ["call", "GET"]]},
+    {"cls": "ignore", "ctor": {"text": "abc", "charset": "latin-1"},
+     "ops": [["set_attr", "default_charset", None], ["set_content_type", "text/plain"], ["get_text"], ["md5_etag_of", "", True], ["md5_etag", False]]},
+]
+
+
 def nontrivial(case):
     return any(o[0] in MUTATING for o in case["ops"])
 
 
 # what coq/Model/C02_RespBody.v mirrors by hand (each Gallina definition's comment names its Python counterpart)
 MODELLED = [
-    # constructor, copy, status
+    # class-level configuration (values), constructor, copy, status
+    "webob.response:Response.default_content_type", "webob.response:Response.default_charset",
+    "webob.response:Response.default_conditional_response", "webob.response:Response.default_body_encoding",
     "webob.response:Response.__init__", "webob.response:Response.copy",
     "webob.response:Response._status__get", "webob.response:Response._status__set",
     "webob.response:Response._status_code__set",
@@ -1123,6 +1297,7 @@ MODELLED = [
 REGENERATED = ["webob.util:status_reasons", "webob.util:status_generic_reasons"]
 # parameters of the model (gzip stream, request URI for urljoin) and glue only the oracle drives
 ORACLE_ONLY = [
+    "webob.response:Response.unicode_errors",
     "webob.response:gzip_app_iter", "webob.response:_gzip_header", "webob.response:_request_uri",
     "webob.response:Response._json_body__get", "webob.response:Response._has_body__get",
     "webob.request:BaseRequest.call_application",
@@ -1156,7 +1331,7 @@ def run(ctx):
 
     rng = ctx.sub_rng("corr")
     hist = [json.loads(json.dumps(c_)) for c_ in CORPUS]
-    hist += [model_case(rng, ctx.scale(8, 12)) for _ in range(ctx.scale(800, 6000))]
+    hist += [model_case(rng, ctx.scale(8, 12)) for _ in range(ctx.scale(600, 6000))]
     correspond("history", hist)
     ctors = []
     for _ in range(ctx.scale(250, 3000)):
@@ -1196,8 +1371,8 @@ def run(ctx):
         ctx.oracle_count(name, n, nt)
 
     r2 = ctx.sub_rng("oracle")
-    sweep("corpus", (json.loads(json.dumps(c_)) for c_ in CORPUS))
-    sweep("random-histories", (rand_case(r2, ctx.scale(8, 12)) for _ in range(ctx.scale(4000, 40000))))
+    sweep("corpus", (json.loads(json.dumps(c_)) for c_ in CORPUS + ORACLE_CORPUS))
+    sweep("random-histories", (rand_case(r2, ctx.scale(8, 12)) for _ in range(ctx.scale(2500, 40000))))
     U = small_universe()
     depth = ctx.scale(2, 3)
 
@@ -1212,10 +1387,10 @@ def run(ctx):
                 for ops in itertools.product(U, repeat=d):
                     yield {"cls": cls, "ctor": ctor, "ops": [list(o) for o in ops]}
     sweep("exhaustive-small", small())
-    sweep("constructor", ctor_sweep())
+    sweep("constructor", ctor_sweep(ALL_CLS if ctx.thorough else ["base", "benc", "lenient"]))
     r3 = ctx.sub_rng("oracle-ctor")
-    sweep("constructor-random", ({"cls": r3.choice(sorted(CLS_CFG)), "ctor": rand_ctor(r3), "ops": [], "kind": "ctor"}
-                                 for _ in range(ctx.scale(1500, 20000))))
+    sweep("constructor-random", ({"cls": r3.choice(ALL_CLS), "ctor": rand_ctor(r3), "ops": [], "kind": "ctor"}
+                                 for _ in range(ctx.scale(1000, 20000))))
 
     ctx.extra["rule"] = (
         "correspondence: random constructor arguments x operation histories (<= %d steps over 22 operation kinds, 6 classes, "
